@@ -13,7 +13,7 @@ from mc import base
 
 PROPERTY = "C15"
 LEVEL = "model_checking"
-BOUNDS = {"quick": (5, 0), "thorough": (5, 6)}  # (max nodes full alphabet, max nodes reduced alphabet)
+BOUNDS = {"quick": (5, 0, 4), "thorough": (5, 6, 5)}  # max nodes: full alphabet, reduced alphabet, early-decoration alphabet
 MANAGERS = ("no_autodiff", "mem_guard_on", "mem_guard_off")
 LEAVES = ("raise", "turn_on", "turn_off", "probe")
 
@@ -31,8 +31,8 @@ class Mismatch(BaseException):
 class Enum:
     """all blocks with exactly n nodes over a choice of leaf / container kinds (memoised below the top)"""
 
-    def __init__(self, leaves=LEAVES, dec=True):
-        self.leaves, self.dec = leaves, dec
+    def __init__(self, leaves=LEAVES, dec=True, decg=False):
+        self.leaves, self.dec, self.decg = leaves, dec, decg
         self.bm, self.nm = {}, {}
 
     def blocks(self, n):
@@ -59,6 +59,8 @@ class Enum:
                     out.append(("with", m, body))
                     if self.dec:
                         out.append(("dec", m, body))
+                    if self.decg:
+                        out.append(("decg", m, body))
                 out.append(("try", body))
             self.nm[k] = out
         return self.nm[k]
@@ -69,6 +71,8 @@ class Enum:
 
 FULL = Enum()
 REDUCED = Enum(leaves=("raise", "turn_on", "turn_off"), dec=False)
+# functions decorated at program start (under the defaults) and called later, possibly under other settings
+EARLY = Enum(leaves=("raise", "turn_on", "turn_off", "probe"), dec=False, decg=True)
 
 
 def blocks(n):
@@ -87,6 +91,9 @@ def render(block, ind=0):
             lines.append("%s@mg.%s\n%sdef f():" % (pad, nd[1], pad))
             lines += render(nd[2], ind + 1) or [pad + "    pass"]
             lines.append("%sf()" % pad)
+        elif k == "decg":
+            lines.append("%sg()  # g was defined at the top of the program as: @mg.%s def g(): <the block below>" % (pad, nd[1]))
+            lines += render(nd[2], ind + 1) or [pad + "    pass"]
         elif k == "try":
             lines.append("%stry:" % pad)
             lines += render(nd[1], ind + 1) or [pad + "    pass"]
@@ -196,6 +203,13 @@ def probe(model, where):
         raise Mismatch(where, "in-place update under no_autodiff did not write into the tensor's own memory")
     y.backward()
     w.backward()
+    for t, what in ((FIX.cgraph, "constant tensor"), (FIX.ngraph, "tensor")):
+        cr = t.creator
+        up = t.creator.variables[0]
+        ops_up = len(up._ops)
+        t.backward()
+        if t.creator is not cr or len(up._ops) != ops_up or up.grad is not None:
+            raise Mismatch(where, "backward() under no_autodiff on a %s whose graph was recorded while tracking changed that graph" % what)
     if x.grad is None or not np.array_equal(x.grad, g_before) or y.grad is not None:
         raise Mismatch(where, "backward() did something under no_autodiff")
     # an int tensor may be produced without complaint; complex too (no dtype gate when not tracking)
@@ -214,6 +228,10 @@ def make_fixture():
     xx = mg.tensor([0.5, -1.5, 2.0])
     FIX.tracked_mul = (xx * 2.0)
     FIX.tracked_mul.clear_graph()
+    # graphs recorded while tracking, to be poked from inside no_autodiff scopes
+    FIX.src1, FIX.src2 = mg.tensor([1.0, 2.0]), mg.tensor([3.0, 4.0])
+    FIX.cgraph = mg.multiply(FIX.src1, 2.0, constant=True)
+    FIX.ngraph = FIX.src2 * 3.0
 
 
 MGR = {}
@@ -256,6 +274,15 @@ def run_node(nd, model, path):
             if "saved" in st:
                 model.exit(nd[1], st["saved"])
                 check(model, ("exit-decorated", path))
+    elif k == "decg":
+        st = {}
+        f = EARLY_FUNCS[id(nd)]
+        try:
+            f(st, model, path)
+        finally:
+            if "saved" in st:
+                model.exit(nd[1], st["saved"])
+                check(model, ("exit-decorated-early", path))
     elif k == "try":
         try:
             run_block(nd[1], model, path)
@@ -275,10 +302,38 @@ def run_node(nd, model, path):
         probe(model, ("probe", path))
 
 
+EARLY_FUNCS = {}
+
+
+def predecorate(block):
+    """decorate every `decg` function now (module level, default settings), to be called when its node runs"""
+    for nd in block:
+        if nd[0] == "decg":
+            m = MGR[nd[1]]
+
+            def make(nd):
+                @m
+                def g(st, model, path):
+                    st["saved"] = model.enter(nd[1])
+                    check(model, ("enter-decorated-early", path))
+                    run_block(nd[2], model, path)
+
+                return g
+
+            EARLY_FUNCS[id(nd)] = make(nd)
+            predecorate(nd[2])
+        elif nd[0] in ("with", "dec"):
+            predecorate(nd[2])
+        elif nd[0] == "try":
+            predecorate(nd[1])
+
+
 def run_program(block):
     """-> (failure or None, model)"""
     base.reset_mygrad()
     model = M()
+    EARLY_FUNCS.clear()
+    predecorate(block)
     try:
         try:
             run_block(block, model, ())
@@ -294,22 +349,26 @@ def run_program(block):
     return None, model
 
 
-def all_programs(n, nred):
+def all_programs(n, nred, nearly=0):
     for k in range(0, n + 1):
         yield from FULL.iter_blocks(k) if k == n else FULL.blocks(k)
+    for k in range(1, nearly + 1):
+        for b in (EARLY.iter_blocks(k) if k == nearly else EARLY.blocks(k)):
+            if "decg" in repr(b):
+                yield b
     if nred:
         # deeper, with decorators folded into `with` and without probes
         yield from REDUCED.iter_blocks(nred)
 
 
 def run_task(task):
-    n, nred, stride, offset, seed = task
+    n, nred, nearly, stride, offset, seed = task
     import mygrad as mg
 
     MGR.update(no_autodiff=mg.no_autodiff, mem_guard_on=mg.mem_guard_on, mem_guard_off=mg.mem_guard_off, mg=mg)
     make_fixture()
     acc = base.Acc()
-    for i, b in enumerate(itertools.islice(all_programs(n, nred), offset, None, stride)):
+    for i, b in enumerate(itertools.islice(all_programs(n, nred, nearly), offset, None, stride)):
         f, model = run_program(b)
         acc.inc("evaluations")
         acc.inc("traces")
@@ -330,18 +389,18 @@ def run_task(task):
 
 
 def plan(tier, seed):
-    n, nred = BOUNDS[tier]
+    n, nred, nearly = BOUNDS[tier]
     stride = 64
     total = sum(FULL.count(k) for k in range(n + 1))
     tred = REDUCED.count(nred) if nred else 0
     return dict(
-        tasks=[(n, nred, stride, o, seed) for o in range(stride)],
+        tasks=[(n, nred, nearly, stride, o, seed) for o in range(stride)],
         run=run_task,
         rule="all block-structured programs with <= %d nodes (%d programs) over with/decorator/try/raise/turn_on/turn_off/probe x 3 managers"
         "%s; states = distinct (TRACK_GRAPH, MEM_GUARD, depth) model states; transitions = comparisons of the real switches with the stack "
         "model; non-trivial = program combining a scope with a raise or turn_* call"
         % (n, total, (" plus all programs with exactly %d nodes (%d) without decorators and probes" % (nred, tred)) if nred else ""),
-        bounds={"max_nodes_full": n, "programs_full": total, "nodes_reduced": nred, "programs_reduced": tred},
+        bounds={"max_nodes_full": n, "programs_full": total, "nodes_reduced": nred, "programs_reduced": tred, "max_nodes_early_decoration": nearly},
         samples=["\n".join(render(FULL.blocks(3)[50]))],
         assumptions=[
             "MEM_GUARD between a turn_* call made inside any scope and the exit of an enclosing mem-guard scope is not compared (the property does not define it)",
